@@ -19,7 +19,10 @@ git -C /repo worktree remove --force $W
 echo "confirm:$res"
 git -C /repo apply $d/patch.diff || { echo "cannot apply to /repo"; exit 2; }
 for c in "$@"; do
+  # evidence and replay files written while the tree is mutated are not evidence: keep the committed ones
+  cp /verif/evidence/$c.json /tmp/seed-evidence-$c.json 2>/dev/null
   out=$(cd /verif && ./check $c 2>&1 | grep -v KNOWN-FINDING)
+  cp /tmp/seed-evidence-$c.json /verif/evidence/$c.json 2>/dev/null
   echo "$out" | grep -q "^VIOLATION" && echo "  $c: CAUGHT  $(echo "$out" | grep -m1 '^  (' | cut -c1-220)" || echo "  $c: missed  $(echo "$out" | tail -1)"
 done
 git -C /repo checkout -- .
